@@ -31,7 +31,9 @@ ADDRS = [b"\0" * 16, bytes([192, 168, 1, 20]) + b"\0" * 12, b"\0" * 15 + b"\x01"
          bytes.fromhex("20010db8000000000000000000000053"), bytes.fromhex("20010db885a3000000008a2e03707334"),
          b"\0" * 4 + b"\x01\0\0\0" + b"\0" * 8, b"\0" * 8 + b"\x02\0\0\0" + b"\0" * 4, bytes([10, 0, 0, 255]) + b"\0" * 12,
          bytes([255, 255, 255, 255]) + b"\0" * 8 + bytes([0, 0, 0, 128])]
-UT_TYPES = [(7, b"USER_PROCESS"), (7, b"USER_PROCESS"), (8, b"DEAD_PROCESS"), (6, b"LOGIN_PROCESS"), (7, b"USER_PROCESS"), (5, b"INIT_PROCESS")]
+# (a type outside the named range is printed as its number: negative, and beyond the table)
+UT_TYPES = [(7, b"USER_PROCESS"), (7, b"USER_PROCESS"), (8, b"DEAD_PROCESS"), (6, b"LOGIN_PROCESS"), (7, b"USER_PROCESS"), (5, b"INIT_PROCESS"),
+            (7, b"USER_PROCESS"), (-1, b"-1"), (7, b"USER_PROCESS"), (200, b"200"), (7, b"USER_PROCESS")]
 
 
 def utmp_fields(i):
@@ -70,7 +72,7 @@ def rec_bytes(i, t, usec=0, layout="utmp", null=b"\0"):
 
 FILENAME = {"utmp": "wtmp", "acct": "pacct", "lastlog": "lastlog"}
 LINE_RE = {
-    "utmp": re.compile(rb"^ut_type (\w+) ut_pid (\d+) ut_line '([^']*)' ut_id '([^']*)' ut_user '([^']*)' "
+    "utmp": re.compile(rb"^ut_type (-?\w+) ut_pid (\d+) ut_line '([^']*)' ut_id '([^']*)' ut_user '([^']*)' "
                        rb"ut_host '([^']*)' e_termination (\d+) e_exit (\d+) ut_session '(\d+)' ut_xtime (\d+)\.(\d+) (ut_addr(?:_v6)? \S+)$"),
     "acct": re.compile(rb"^ac_flag 0b0010 \(ASU\) ac_version 3 ac_tty 0 ac_exitcode 0 ac_uid (\d+) ac_gid (\d+) ac_pid (\d+) ac_ppid 1 "
                        rb"ac_btime (\d+) ac_etime 1\.5 ac_utime 0 ac_stime 0 ac_mem 0 ac_io 0 ac_rw 0 ac_minflt 0 ac_majflt 0 ac_swaps 0 "
